@@ -77,7 +77,7 @@ TABLE_RULE = ("table: TLC enumerates endpoint configuration {anonymous only, use
 HIST_RULE = ("histories: every sequence of CreateSession / ActivateSession (anonymous, plain password, password encrypted for the nonce "
              "of any generation so far, x509 signature over the nonce of any generation so far; right and wrong credentials; replays are "
              "byte-identical) / a service, exhaustive to the depth bound, each on a policy None and a Basic256Sha256 endpoint, plus random "
-             "simulation to depth 10 with two sessions, two connections, channel changes, close and timeout; non-trivial = (table) a user "
+             "simulation to depth 10 with two sessions, two connections, channel changes, close and time steps beyond the session timeout; non-trivial = (table) a user "
              "name or x509 token, (histories) an activation with a token made for an earlier nonce")
 ASSUMPTIONS = ["ActivateSession requests are dispatched decoded through MessageHandler::handle_message (cfg-guarded hook) after a real "
                "HELLO/OpenSecureChannel on policy None; the Basic256Sha256 endpoint is selected by setting policy and mode of the "
